@@ -95,6 +95,14 @@ class BuildX(Unit):
         ss_.guard = nfm
         pb._fixed_val, pb._scaling_factor, pb._scaling_shift = fv, sf_, ss_
         pb._orig_bounds = ob
+        # the reduced/scaled bounds of the solver's variables (arbitrary consistent box of the reduced dimension)
+        rb = BC.__new__(BC)
+        rxl = vecs.fresh_vec("reduced_xl", n, nonan=True)
+        rxu = vecs.fresh_vec("reduced_xu", n, nonan=True)
+        rxl.guard = nfm
+        rxu.guard = nfm
+        rb._xl, rb._xu, rb.is_feasible = rxl, rxu, isf
+        pb._bounds = rb
         x = vecs.fresh_vec("x", n, finite=True)          # the solver's point in reduced / scaled variables: NaN-free, finite
         x.guard = nfm
         x.owner = "solver"
